@@ -65,6 +65,10 @@ def gen(cls, idx, rng, tier):
         return dict(kind="sdp", f=f)
     k = rng.randint(0, 3)
     f["cmd_rc"] = rval(rng, 16, mode)
+    if cls == "scp_random" and idx % 4 == 0:
+        # the values that mean something to the protocol (command numbers,
+        # return codes 0x80..0x8f) one after another
+        f["cmd_rc"] = (idx // 4) % 0x100
     f["seq"] = rval(rng, 16, mode)
     for i in range(1, 4):
         f["arg%d" % i] = rval(rng, 32, mode) if i <= k else None
